@@ -174,7 +174,13 @@ func pathVerdict(lib, msg string, offs []vu.Offence) (ok bool, class, detail str
 func (j *judge) decide(q pairSpec, ob observed, checkPath bool) { j.decideAttr(q, ob, checkPath, "") }
 
 func (j *judge) decideAttr(q pairSpec, ob observed, checkPath bool, attrOverride string) {
-	v, t := q.V, j.p.T
+	j.decideT(q, j.p.T, ob, checkPath, attrOverride)
+}
+
+// decideT judges one crossing into type t (routes with several target types per case set j.at so
+// that the failure report names the crossing).
+func (j *judge) decideT(q pairSpec, t vu.Type, ob observed, checkPath bool, attrOverride string) {
+	v := q.V
 	offs := vu.Offences(v, t, q.Explicit)
 	conf := len(offs) == 0
 	typed := vu.HasType(v, t)
@@ -182,23 +188,23 @@ func (j *judge) decideAttr(q pairSpec, ob observed, checkPath bool, attrOverride
 		j.admitted++
 		switch {
 		case ob.resultErr != nil:
-			j.fail("admit-unconvertible", t.Shape(), q, "admitted, but the admitted value is malformed: %v", ob.resultErr)
+			j.failT("admit-unconvertible", t.Shape(), q, t, "admitted, but the admitted value is malformed: %v", ob.resultErr)
 		case !conf:
 			a := attribute(v, t, q.Explicit, ob.result, offs)
 			if attrOverride != "" {
 				a = attrOverride
 			}
-			j.fail("admit-nonconforming", a, q,
+			j.failT("admit-nonconforming", a, q, t,
 				"a non-conforming value was admitted as %s; reference offences: %v", ob.result, offs)
 		case !vu.HasType(ob.result, t):
-			j.fail("result-not-typed", attribute(v, t, q.Explicit, ob.result, offs), q,
+			j.failT("result-not-typed", attribute(v, t, q.Explicit, ob.result, offs), q, t,
 				"admitted value %s does not deeply conform to the target type", ob.result)
 		case typed && !vu.StructEq(ob.result, v):
-			j.fail("typed-changed", t.Shape(), q, "a value that already has the target type was changed into %s", ob.result)
+			j.failT("typed-changed", t.Shape(), q, t, "a value that already has the target type was changed into %s", ob.result)
 		case !typed:
 			ref, _, exact := vu.Convert(v, t, q.Explicit)
 			if exact && !t.HasNestedOption() && !vu.StructEq(ob.result, ref) {
-				j.fail("wrong-conversion", t.Shape(), q, "admitted as %s, the permitted conversions yield %s", ob.result, ref)
+				j.failT("wrong-conversion", t.Shape(), q, t, "admitted as %s, the permitted conversions yield %s", ob.result, ref)
 			}
 			j.cov("admit-converted")
 		default:
@@ -209,9 +215,9 @@ func (j *judge) decideAttr(q pairSpec, ob observed, checkPath bool, attrOverride
 	j.rejected++
 	switch {
 	case typed:
-		j.fail("reject-typed", msgDetail(ob.msg), q, "a value that already has the target type was rejected: %q", clip(ob.msg, 300))
+		j.failT("reject-typed", msgDetail(ob.msg), q, t, "a value that already has the target type was rejected: %q", clip(ob.msg, 300))
 	case conf && q.Explicit:
-		j.fail("reject-convertible", msgDetail(ob.msg), q, "a value that conforms after the permitted conversions was rejected by an explicit cast: %q", clip(ob.msg, 300))
+		j.failT("reject-convertible", msgDetail(ob.msg), q, t, "a value that conforms after the permitted conversions was rejected by an explicit cast: %q", clip(ob.msg, 300))
 	case conf:
 		j.cov("strict-reject")
 	default:
@@ -226,7 +232,7 @@ func (j *judge) decideAttr(q pairSpec, ob observed, checkPath bool, attrOverride
 			return
 		}
 		if ok, class, detail := pathVerdict(j.p.Lib, ob.msg, offs); !ok {
-			j.fail(class, detail, q, "rejected, but the message does not name an offending path: %q; reference offences: %v", clip(ob.msg, 300), offs)
+			j.failT(class, detail, q, t, "rejected, but the message does not name an offending path: %q; reference offences: %v", clip(ob.msg, 300), offs)
 			return
 		}
 		if addressable {
@@ -245,12 +251,17 @@ func (j *judge) api(q pairSpec) {
 	at := vu.AstType(j.p.T)
 	var ob observed
 	var pv any
+	// the operand as it is after the cast: DeepCast is handed a dynamic value that stays reachable
+	// (a field of an any-object, a host value), so it has to leave it as it was
+	var operand vu.Val
+	var operandErr error
 	func() {
 		defer func() { pv = recover() }()
 		switch j.p.Lib {
 		case "vm":
 			in := vu.ToVM(q.V)
 			res, cerr := vvalue.DeepCast(*in, at, herrors.Span{}, q.Explicit)
+			operand, operandErr = vu.FromVM(*in)
 			if cerr != nil {
 				ob.msg = cerr.Message()
 				return
@@ -264,6 +275,7 @@ func (j *judge) api(q pairSpec) {
 		default:
 			in := vu.ToTree(q.V)
 			res, cerr := ivalue.DeepCast(*in, at, herrors.Span{}, q.Explicit)
+			operand, operandErr = vu.FromTree(*in)
 			if cerr != nil {
 				ob.msg = (*cerr).Message()
 				return
@@ -281,6 +293,25 @@ func (j *judge) api(q pairSpec) {
 		return
 	}
 	j.decide(q, ob, true)
+	j.sourceKept("operand", q, j.p.T, ob.admitted, q.V, operand, operandErr)
+}
+
+// sourceKept judges the dynamic value a cast was applied to, read again after the cast: neither an
+// admitted nor a rejected crossing may have changed it (a non-conforming value "never corrupts later
+// execution"; a conforming one is still the value it was when it crosses the boundary the next time).
+func (j *judge) sourceKept(what string, q pairSpec, t vu.Type, admitted bool, before, after vu.Val, afterErr error) {
+	how := "rejected"
+	if admitted {
+		how = "admitted"
+	}
+	switch {
+	case afterErr != nil:
+		j.failT("source-changed", how+":"+t.Shape(), q, t, "the %s cast left the %s it was applied to malformed: %v", how, what, afterErr)
+	case !vu.Identical(before, after):
+		j.failT("source-changed", how+":"+t.Shape(), q, t, "the %s cast changed the %s it was applied to: it was %s and now is %s", how, what, before, after)
+	default:
+		j.cov("source-kept-" + how)
+	}
 }
 
 // ---------------------------------------------------------------------------------------------
